@@ -1,6 +1,6 @@
 #!/bin/bash
 # try_seed.sh <patch.diff> <check ids...> : applies a seeded change to /repo, runs the given checks (quick), undoes it.
-patch=$1; shift
+patch=$(realpath $1); shift
 cd /repo && git diff --quiet || { echo "/repo not clean"; exit 2; }
 git -C /repo apply "$patch" || exit 2
 for c in "$@"; do
